@@ -96,7 +96,7 @@ def make_weather(rng, first, last, archetype=None, station_p=0.2):
     }
 
 
-EVENT_KINDS = ["storm", "wet_spell", "drought", "heat_wave", "cold_snap", "et0_spike", "et0_floor"]
+EVENT_KINDS = ["storm", "wet_spell", "drought", "heat_wave", "cold_snap", "et0_spike", "et0_floor", "dry_then_wet"]
 
 
 def make_event(rng, kind, day):
@@ -106,6 +106,9 @@ def make_event(rng, kind, day):
         return {"kind": kind, "day": day, "len": rng.randint(5, 20), "mag": round(rng.uniform(10, 40), 1)}
     if kind == "drought":
         return {"kind": kind, "day": day, "len": rng.choice([30, 60, 90, 150, 250, 400]), "mag": 0.0}
+    if kind == "dry_then_wet":
+        # a dry spell followed at once by a wet spell (re-watering after stress): len = dry days, then 12 wet days of `mag` mm
+        return {"kind": kind, "day": day, "len": rng.choice([20, 35, 50, 70]) + 12, "mag": round(rng.uniform(8, 30), 1)}
     if kind == "heat_wave":
         return {"kind": kind, "day": day, "len": rng.randint(3, 15), "mag": round(rng.uniform(8, 16), 1)}
     if kind == "cold_snap":
@@ -131,6 +134,8 @@ def inject(w, ev):
             w["et0"][i] = round(max(0.1, w["et0"][i] * 0.6), 2)
         elif k == "drought":
             w["precip"][i] = 0.0
+        elif k == "dry_then_wet":
+            w["precip"][i] = 0.0 if i < ev["day"] + ev["len"] - 12 else ev["mag"]
         elif k == "heat_wave":
             w["tmax"][i] = round(w["tmax"][i] + ev["mag"], 1)
             w["tmin"][i] = round(w["tmin"][i] + ev["mag"] / 2, 1)
